@@ -270,6 +270,57 @@ func sameIndex(a, b ssa.Value) bool {
 
 // isClear: instr stores nil into the slot (element or whole field).
 func (si *slotInfo) isClear(i ssa.Instruction, ref slotRef) bool {
+	// a helper of the parent that empties the slot it is told to (`s.relinquish(idx)`: under nothing but the
+	// recycle option, `s.validators[idx] = nil`)
+	if c, isCall := i.(*ssa.Call); isCall {
+		h := core.StaticCallee(c)
+		if h == nil || len(h.Blocks) == 0 || h.Signature.Recv() == nil || len(c.Call.Args) == 0 {
+			return false
+		}
+		cleared := false
+		core.EachInstr(h, func(j ssa.Instruction) {
+			st, ok := j.(*ssa.Store)
+			if !ok || !core.IsNilConst(st.Val) {
+				return
+			}
+			// only the recycle option may decide whether the store happens
+			for _, cd := range core.CondsAt(st.Block()) {
+				if pth, ok := core.Path(cd.Value); !ok || !strings.HasSuffix(pth, recycleSuffix) || !cd.Sense {
+					return
+				}
+			}
+			if n, f, ok := si.slotFieldAddr(st.Addr); ok && n == ref.parent && f == ref.field {
+				if base := baseOfAddr(st.Addr); base == ssa.Value(h.Params[0]) {
+					cleared = true
+				}
+				return
+			}
+			ia, ok := st.Addr.(*ssa.IndexAddr)
+			if !ok {
+				return
+			}
+			var n *types.Named
+			var f int
+			found := false
+			if n2, f2, ok := si.slotFieldAddr(ia.X); ok {
+				n, f, found = n2, f2, true
+			} else if ld, ok := ia.X.(*ssa.UnOp); ok && ld.Op == token.MUL {
+				if n2, f2, ok := si.slotFieldAddr(ld.X); ok {
+					n, f, found = n2, f2, true
+				}
+			}
+			if !found || n != ref.parent || f != ref.field {
+				return
+			}
+			// the index is a parameter of the helper: the argument at the call site must be the slot's index
+			for k, prm := range h.Params {
+				if ia.Index == ssa.Value(prm) && k < len(c.Call.Args) && sameIndex(c.Call.Args[k], ref.index) {
+					cleared = true
+				}
+			}
+		})
+		return cleared
+	}
 	st, ok := i.(*ssa.Store)
 	if !ok || !core.IsNilConst(st.Val) {
 		return false
